@@ -5,14 +5,20 @@
                  "_rb_chunk_reclaim.function_pointer_call.1/verif_reclaim_fn"],
  "drops": ["qb_util_log/qb_util_perror diagnostics compiled out (stubs/nolog.h)"],
  "pre_unwindset": ["qb_rb_chunk_step.0:1"],
- "expect_classes": ["loop_invariant_step", "assertion"], "timeout": 900, "fallback_unwind": 4}
+ "expect_classes": ["loop_invariant_step", "assertion"], "timeout": 900, "fallback_unwind": 4,
+ "variants": [{"vname": "plain", "defines": ["-DV_NOTIFIER=0"]},
+              {"vname": "semaphore", "defines": ["-DV_NOTIFIER=1"]}]}
 */
 /* qb_rb_chunk_alloc in OVERWRITE mode, loop contract on the reclaim loop (any number of iterations):
  * given chain validity at each chunk it visits (hypothesis instantiated by verif_chain_hypothesis: the
  * oldest chunk is published and its footprint does not reach past write_pt), every write of at most
  * the requested size S (S + 13 <= capacity) SUCCEEDS, reclaiming oldest-first, never moving write_pt,
  * never stepping read_pt past write_pt (so the newest chunk is never reclaimed by a later write's
- * loop before older ones), and leaves at least len + 12 bytes free. */
+ * loop before older ones), and leaves at least len + 12 bytes free.
+ *  plain    : ring without notifier (QB_RB_FLAG_NO_SEMAPHORE);
+ *  semaphore: ring with the notification semaphore -- the default, and what the logging blackbox opens.  The writer's own
+ *             reclaim does not consume semaphore tokens, so the token count (q_len) is ANY value >= the number of
+ *             unread chunks; the write must succeed all the same, also when it has to reclaim every unread chunk. */
 #include "os_base.h"
 #include "verif.h"
 uint32_t verif_w0, verif_U0;
@@ -40,7 +46,13 @@ static void verif_chain_hypothesis(struct qb_ringbuffer_s *rb)
 
 void harness(void)
 {
-	struct qb_ringbuffer_s *rb = verif_build_rb(QB_RB_FLAG_OVERWRITE, 0);
+	struct qb_ringbuffer_s *rb = verif_build_rb(QB_RB_FLAG_OVERWRITE, V_NOTIFIER);
+#if V_NOTIFIER
+	VERIF_ND(uint32_t, nd_tokens);
+	ASSUME(nd_tokens <= 0x7fffffff);
+	verif_qlen = nd_tokens;   /* tokens posted by commits and never consumed by the writer's own reclaim */
+	rb->notifier.reclaim_fn = NULL;   /* as qb_rb_sem_create leaves it for the semaphore notifiers */
+#endif
 	VERIF_ND(size_t, nd_S);
 	VERIF_ND(size_t, nd_len);
 	uint32_t ws = rb->shared_hdr->word_size, r = rb->shared_hdr->read_pt, w = rb->shared_hdr->write_pt;
